@@ -148,6 +148,11 @@ def main(argv=None):
         'explanation': getattr(mod, 'EXPLANATION', ''),
     }
     common.write_evidence(pid, tier, a.seed, cov, getattr(mod, 'ASSUMPTIONS', []), wall, violations)
+    # whatever the code under test wrote to the terminal (a progress bar ends without a newline) must not share a
+    # line with the verdict lines
+    sys.stdout.flush()
+    if lines:
+        sys.stdout.write('\n')
     for l in lines:
         print(l)
     print('%s %s: theorems=%d/%d evaluations=%d nontrivial=%d tie_mismatches=%d oracle_failures=%d wall=%.1fs' % (
